@@ -1,6 +1,7 @@
 package main
 
 import (
+	"strconv"
 	"fmt"
 	"strings"
 	"sync"
@@ -251,17 +252,25 @@ func (c *ptCase) flush(gs map[int64]goState) {
 func runPoolCase(ctx *Ctx, maxWorkers, idle int, script []string) {
 	c := &ptCase{ctx: ctx, mainGid: goid(), fireT: map[int]int{}, cancelled: map[int]bool{}, started: map[int]int{}, pendingSleep: map[int64][2]interface{}{}, heldGate: make(chan struct{}), cancellers: map[int64]*ptCanceller{},
 		base: time.Date(2030, 1, 1, 0, 0, 0, 0, time.UTC)}
-	om, oi := timeout.VerifSetPool(maxWorkers, time.Duration(idle)*time.Millisecond)
+	// what one unit of the virtual clock stands for: a millisecond unless the script says otherwise
+	// ("unit <microseconds>"): nothing in the dispatcher may depend on the absolute size of a delay
+	unit := time.Millisecond
+	if len(script) > 0 && strings.HasPrefix(script[0], "unit ") {
+		us, _ := strconv.Atoi(strings.Fields(script[0])[1])
+		unit = time.Duration(us) * time.Microsecond
+		script = script[1:]
+	}
+	om, oi := timeout.VerifSetPool(maxWorkers, time.Duration(idle)*unit)
 	timeout.VerifSetClock(func() time.Time {
 		c.mu.Lock()
 		defer c.mu.Unlock()
-		return c.base.Add(time.Duration(c.vnow) * time.Millisecond)
+		return c.base.Add(time.Duration(c.vnow) * unit)
 	})
 	timeout.VerifTimerHook = func(d time.Duration) *time.Timer {
 		tm := time.NewTimer(time.Hour)
 		g := goid()
 		c.mu.Lock()
-		dl := c.vnow + int(d/time.Millisecond)
+		dl := c.vnow + int((d+unit-1)/unit)
 		c.pendingSleep[g] = [2]interface{}{tm, dl}
 		if t := c.thread(g); t != nil {
 			t.timer, t.sleeping, t.deadline = tm, true, dl
@@ -327,6 +336,9 @@ func runPoolCase(ctx *Ctx, maxWorkers, idle int, script []string) {
 		timeout.VerifSetPool(om, oi)
 	}()
 	ctx.R.Case(maxWorkers, idle)
+	if unit != time.Millisecond {
+		ctx.R.Op(fmt.Sprintf("unit %d", int(unit/time.Microsecond)), "ok")
+	}
 	mk := func(id int) func() {
 		return func() {
 			g := goid()
@@ -426,7 +438,7 @@ func runPoolCase(ctx *Ctx, maxWorkers, idle int, script []string) {
 			}
 			ctx.R.Op(fmt.Sprintf("add %d", ft), "ok")
 			ctx.R.Enter()
-			fu := timeout.Call(mk(id), time.Duration(x)*time.Millisecond)
+			fu := timeout.Call(mk(id), time.Duration(x)*unit)
 			ctx.R.Leave()
 			c.futs = append(c.futs, fu)
 			c.settle()
@@ -690,6 +702,10 @@ func runPool(ctx *Ctx) {
 			if r.Chance(1, 2) {
 				script = append(script, "fire 0", "tick 12", "fire 0")
 			}
+		}
+		if r.Chance(1, 3) {
+			// a finer clock: one unit = 20 or 2 microseconds (delays and the idle time-out shrink with it)
+			script = append([]string{fmt.Sprintf("unit %d", []int{20, 2}[r.Intn(2)])}, script...)
 		}
 		runPoolCase(ctx, maxWorkers, idle, script)
 	}
